@@ -203,9 +203,15 @@ class World:
         if kind == "pkv":
             prov, kid, a, m, s = t[2], int(t[3]), int(t[4]), unhx(t[5]), unhx(t[6])
             key, okid = self.id_to[kid]
-            if s == self.PLACEHOLDER:
-                # the model's stand-in for a provider-made signature: valid exactly when this key may sign with this alg
-                v = okid is not None and K.usable(key, K.ORD_ALG[a])
+            if s.startswith(self.PLACEHOLDER + b":"):
+                # the model's stand-in for a provider-made signature, tagged with the signing item and algorithm:
+                # valid exactly under the same key (private or public half), the same algorithm, when the key may be used with it
+                try:
+                    skid, salg = (int(x) for x in s[len(self.PLACEHOLDER) + 1:].split(b":"))
+                    same = self.id_to[skid][0] is key and salg == a
+                except Exception:
+                    same = False
+                v = okid is not None and same and K.usable(key, K.ORD_ALG[a])
             else:
                 v = self.oracle.verify(okid, K.ORD_ALG[a], m, s) if okid is not None else False
             if prov == "gnutls" and a == 13:
@@ -275,7 +281,7 @@ class World:
                 self.oracle_stats["ecdsa-short-r"] = self.oracle_stats.get("ecdsa-short-r", 0) + 1
             if a in (7, 8, 9, 13) and sig[len(sig) // 2:len(sig) // 2 + 1] == b"\x00":
                 self.oracle_stats["ecdsa-short-s"] = self.oracle_stats.get("ecdsa-short-s", 0) + 1
-            toks[0] = "tok=" + hx(h + b"." + p + b"." + K.b64u(self.PLACEHOLDER).encode())
+            toks[0] = "tok=" + hx(h + b"." + p + b"." + K.b64u(self.PLACEHOLDER + b":%d:%d" % (kid, a)).encode())
             return " ".join(toks) + " sigby=" + sb
         return ex_line
 
